@@ -47,7 +47,9 @@ Definition task_ok (g : gst) (t : tid) (k : task) : Prop :=
   | PLeaveN1 ch o n w _ =>
       cmap g ch = Some o /\ In n (members (objs g o)) /\ wl g o = Some t /\ w = is_owner (objs g o) n
   | PLeaveN2 ch o _ _ => cmap g ch = Some o /\ wl g o = Some t
-  | PLeaveWait ch o _ _ => o < next_oid g /\ forall ch', cmap g ch' = Some o -> ch' = ch   (* the object was created for this name *)
+  (* a request that waits for an object's lock looked it up under this very name: the object was created for it *)
+  | PLeaveWait ch o _ _ | PJoinWait ch o _ _ | PBcastWait ch o _ _ | PMembersWait ch o _
+  | PSetAclWait ch o _ _ _ _ | PGetAclWait ch o _ _ => o < next_oid g /\ forall ch', cmap g ch' = Some o -> ch' = ch
   | PDone => False                                   (* finished tasks are removed *)
   | _ => True
   end.
